@@ -27,6 +27,8 @@ def o_alphabet():
         a += ["clr:%d" % i, "rd:%d" % i]
         for j in (0, 1, 2):
             a += ["cp:%d:%d" % (i, j), "cpc:%d:%d" % (i, j)]
+            if i != j and (i + j) % 2:
+                a += ["cpk:%d:%d" % (i, j)]
     a += ["set:2:7", "cp:2:0", "rd:2"]
     return a
 
@@ -75,7 +77,7 @@ def gen_c18(tier, rng):
             if r < 30:
                 ops.append("set:%d:%d" % (c(), rng.below(100) - 50))
             elif r < 60:
-                ops.append(rng.choice(["cp:%d:%d", "cpc:%d:%d"]) % (c(), c()))
+                ops.append(rng.choice(["cp:%d:%d", "cpc:%d:%d", "cpk:%d:%d", "mvk:%d:%d"]) % (c(), c()))
             elif r < 80:
                 ops.append("clr:%d" % c())
             else:
